@@ -871,7 +871,12 @@ class Overlay(Widget, WidgetContainerMixin, WidgetContainerListContentsMixin, ty
         if not bottom_c.cols() or not bottom_c.rows():
             return CompositeCanvas(bottom_c)
 
-        top_c = self.top_w.render(self.top_w_size(real_size, left, right, top, bottom), focus)
+        top_size = self.top_w_size(real_size, left, right, top, bottom)
+        if 0 in top_size:
+            # nothing of top_w is visible (e.g. a relative height that rounds down to no rows)
+            return CompositeCanvas(bottom_c)
+
+        top_c = self.top_w.render(top_size, focus)
         top_c = CompositeCanvas(top_c)
         if left < 0 or right < 0:
             top_c.pad_trim_left_right(min(0, left), min(0, right))
